@@ -7,3 +7,8 @@ mod types;
 
 pub use state::H263State;
 pub use types::DecoderOption;
+
+#[cfg(feature = "verif")]
+pub use cpu::{gather, idct_channel, inverse_rle, mv_decode, predict_candidate};
+#[cfg(feature = "verif")]
+pub use picture::DecodedPicture;
